@@ -18,6 +18,10 @@ func generate(plugin *protogen.Plugin, req generateRequest) error {
 }
 
 func generateSingle(plugin *protogen.Plugin, req generateRequest) error {
+	if len(allMessages(req.ProtoDesc)()) == 0 {
+		// nothing to generate for a file that declares no messages (file-per-message mode writes nothing either)
+		return nil
+	}
 	type genArgsSingle struct {
 		Now                time.Time
 		Pwd                string
